@@ -153,9 +153,29 @@ static void run_named_test(TestSuite *suite, const char *name, TestReporter *rep
     (*reporter->finish_suite)(reporter, suite->filename, suite->line);
 }
 
+/* When a test runs in the current process, an exit() from inside it (or from the per
+   test timeout) ends the whole run. Make sure that can never look like a successful run. */
+static int test_is_running_in_the_current_process = 0;
+
+static void fail_the_run_if_exiting_from_inside_a_test(void)
+{
+    if (test_is_running_in_the_current_process)
+    {
+        fprintf(stderr, "Test exited the process that runs the tests, so the run is incomplete\n");
+        fflush(NULL);
+        _exit(EXIT_FAILURE);
+    }
+}
+
 static void run_test_in_the_current_process(TestSuite *suite, CgreenTest *test, TestReporter *reporter)
 {
+    static int exit_guard_is_registered = 0;
     uint32_t test_starting_milliseconds = cgreen_time_get_current_milliseconds();
+
+    if (!exit_guard_is_registered)
+    {
+        exit_guard_is_registered = (atexit(&fail_the_run_if_exiting_from_inside_a_test) == 0);
+    }
 
     (*reporter->start_test)(reporter, test->name);
     if (test->skip)
@@ -164,7 +184,9 @@ static void run_test_in_the_current_process(TestSuite *suite, CgreenTest *test, 
     }
     else
     {
+        test_is_running_in_the_current_process = 1;
         run_the_test_code(suite, test, reporter);
+        test_is_running_in_the_current_process = 0;
         reporter->duration = cgreen_time_duration_in_milliseconds(test_starting_milliseconds,
                                                                   cgreen_time_get_current_milliseconds());
 
